@@ -391,8 +391,8 @@ class Discovery (EventMixin):
       for t in lldph.tlvs[3:]:
         if t.tlv_type == pkt.lldp.SYSTEM_DESC_TLV:
           # This is our favored way...
-          for line in t.payload.decode().split('\n'):
-            if line.startswith('dpid:'):
+          for line in t.payload.split(b'\n'):
+            if line.startswith(b'dpid:'):
               try:
                 return int(line[5:], 16)
               except:
